@@ -199,6 +199,8 @@ var resetSpecs = []resetSpec{
 			"addElementsFunc": {"beginArray*", "Begin*"}, "onComplete": {"BeginArray", "Begin*"}},
 		scratch: map[string]string{"arrayChunkBacking": "backing array of arrayChunkLeftover, which is re-sliced to length 0 by reset"}},
 	{rel: "cte", typ: "indenter", resets: []string{"Reset"}},
+	{rel: "rules", typ: "RulesEventReceiver", resets: []string{"Reset"},
+		scratch: map[string]string{"receiver": "where accepted events are sent: set by Init / SetNextReceiver and kept across documents by design (C15 judges its use)"}},
 }
 
 func matchName(name string, pats []string) bool {
@@ -406,6 +408,7 @@ func checkC16(r *core.Run, p *core.Program) {
 	for _, spec := range resetSpecs {
 		checkResetSpec(r, p, "C16.reset", spec)
 	}
+	checkUnlistedResets(r, p)
 
 	// ---- sub-reset order
 	if f := findFn(p, "cte", "EncoderEventReceiver.OnVersion"); f == nil {
@@ -539,4 +542,82 @@ func mapIdiomTestsSameField(cond, field string) bool {
 		}
 	}
 	return true
+}
+
+// checkUnlistedResets: a struct type that offers a Reset()/reset() method the table above does not know (one that was
+// added later) is held to the weakest form of the obligation: a field that methods of the type modify while a
+// document is processed, that Reset does not store, and that NO method other than Init/constructors stores
+// unconditionally either, keeps the previous document's value whatever the order of calls.
+func checkUnlistedResets(r *core.Run, p *core.Program) {
+	listed := map[string]bool{}
+	for _, sp := range resetSpecs {
+		listed[sp.rel+"."+sp.typ] = true
+	}
+	n := 0
+	for _, rel := range core.LibraryPackages {
+		if rel == "cte/parser" {
+			continue
+		}
+		pkg := p.Pkg(rel)
+		for _, name := range pkg.Types.Scope().Names() {
+			tn, ok := pkg.Types.Scope().Lookup(name).(*types.TypeName)
+			if !ok || listed[rel+"."+name] {
+				continue
+			}
+			nt, ok := tn.Type().(*types.Named)
+			if !ok {
+				continue
+			}
+			if _, isStruct := nt.Underlying().(*types.Struct); !isStruct {
+				continue
+			}
+			resetName := ""
+			for _, cand := range []string{"Reset", "reset"} {
+				if p.LookupFunc(rel, name+"."+cand) != nil {
+					resetName = cand
+				}
+			}
+			if resetName == "" {
+				continue
+			}
+			n++
+			writes := fieldWrites(p, nt)
+			reset := definiteStores(p, nt, writes, resetName, 0, map[string]bool{})
+			for fld, ws := range writes {
+				if _, ok := reset[fld]; ok {
+					continue
+				}
+				processing, storedElsewhere := false, false
+				for _, w := range ws {
+					mn := w.f.Decl.Name.Name
+					isInit := mn == "Init" || strings.HasPrefix(mn, "New") || strings.HasPrefix(mn, "new") || mn == resetName
+					if isInit && mn != resetName && posInsideFuncLit(w.f, w.pos) {
+						processing = true // a callback installed by Init: it runs while documents are processed
+					}
+					if !isInit {
+						processing = true
+						if w.top && (w.how == "assign" || strings.HasPrefix(w.how, "call:")) {
+							storedElsewhere = true
+						}
+					}
+				}
+				if processing && !storedElsewhere {
+					r.Fail("C16.reset", fmt.Sprintf("%s.%s.%s|not re-initialised by the new %s", rel, name, fld.Name(), resetName), fld.Pos(),
+						fmt.Sprintf("%s.%s offers %s() but the field %s, which is modified while a document is processed, is stored neither by %s nor unconditionally by any other method: a reused instance starts the next document with the previous document's value", rel, name, resetName, fld.Name(), resetName))
+				}
+			}
+		}
+	}
+	r.Count("C16.reset types with an unlisted Reset method", n)
+}
+
+func posInsideFuncLit(f *fn, pos token.Pos) bool {
+	in := false
+	ast.Inspect(f.Decl.Body, func(n ast.Node) bool {
+		if lit, ok := n.(*ast.FuncLit); ok && lit.Pos() <= pos && pos <= lit.End() {
+			in = true
+		}
+		return true
+	})
+	return in
 }
